@@ -31,7 +31,7 @@ MIX = {
     'c11': dict(write=14, dele=6, copy=2, read=40, chain=26, bad=4, value=3, reattach=0, validate=5, attach=4, deep=20),
     'c12': dict(write=30, dele=8, copy=3, read=2, chain=4, bad=42, value=8, reattach=3, validate=0, attach=12, deep=8),
     'c05': dict(write=50, dele=10, copy=5, read=2, chain=8, bad=10, value=8, reattach=0, validate=0, attach=14, deep=12),
-    'c04': dict(write=35, dele=10, copy=2, read=2, chain=4, bad=4, value=5, reattach=0, validate=38, attach=4, deep=8),
+    'c04': dict(write=35, dele=10, copy=2, read=2, chain=4, bad=4, value=5, reattach=0, validate=38, attach=4, selfassign=9, deep=8),
 }
 
 SEG_POOL = ['PID', 'PV1', 'NK1', 'OBX', 'EVN', 'MSA', 'ORC', 'OBR', 'AL1', 'DG1', 'IN1', 'NTE', 'PD1', 'QRD', 'ERR']
@@ -657,6 +657,25 @@ class Gen:
         self.pending.extend(follow)
         return {'k': 'hold', 'p': hpath, 'reg': reg}
 
+    def op_selfassign(self, world):
+        rng = self.rng
+        if self.kind != 'msg':
+            return None
+        if self.init.get('profile'):
+            path, name = rng.choice([([], 'MSA'), ([], 'QAK'), ([], 'QPD'),
+                                     ([['grp', 'RSP_K21_QUERY_RESPONSE', 0, 0]], 'PID')])
+            return {'k': 'selfassign', 'p': path, 'c': ['seg', name, 0, rng.choice([0, 1])]}
+        m = self.model(world)
+        if m is None:
+            return None
+        segs = [(i, k_) for i, k_ in enumerate(m.kids) if k_.kind == 'seg' and k_.key != 'MSH' and
+                T.seg_fields(self.version, k_.key) and k_.kids]
+        if not segs:
+            return None
+        i, child = rng.choice(segs)
+        rep_i = [id(k_) for k_ in m.reps('seg', child.key)].index(id(child))
+        return {'k': 'selfassign', 'p': [], 'c': ['seg', child.key, rep_i, rng.choice([0, 1])]}
+
     def op_reattach(self, world):
         rng = self.rng
         targets = self.seg_targets(world)
@@ -931,6 +950,12 @@ def gen_init(rng, mix, tok):
             init['text'] = gen.segment_text(rng, version, name, corpus._ec(0), tok, fill=rng.choice([0.15, 0.4]), invalid_p=inv,
                                             overflow_p=ovf)
         return init
+    if kind == 'msg' and mix == 'c04' and rng.random() < 0.15:
+        from worlds import valorder_world as VO
+        item = VO.make_item(rng, rng.randrange(1000))
+        while item.get('kind') == 'zfield':
+            item = VO.make_item(rng, rng.randrange(1000))
+        return {'kind': 'msg', 'name': 'RSP_K21', 'version': '2.5', 'level': 2, 'ec': 0, 'text': item['text'], 'profile': True}
     if kind == 'msg':
         pool = [s for s in MSG_POOL if s in T.messages(version)]
         name = rng.choice(pool) if rng.random() < 0.8 else gen.pick_structure(rng, version)
